@@ -181,7 +181,34 @@ def symmetric_solve(u):
 
     u.it.lib["numpy.where"] = where
     u.it.hooks["opaque_setitem"] = True
-    check(u, ss, cur)
+    # inertia correction (off by default): the factorisation may or may not report its inertia
+    inertia = u.path.choose("inertia_correction")
+    params.fields["inertia_correction"] = inertia
+    seen = {"none": False}
+
+    def num_neg_eigvals(it, self_):
+        if it.path.choose("solver reports no inertia"):
+            seen["none"] = True
+            return None
+        return it.path.int("num_neg_eigvals")
+
+    u.it.abstract["pygradflow.linear_solver.lu_solver.LUSolver.num_neg_eigvals"] = num_neg_eigvals
+    u.it.abstract["pygradflow.linear_solver.linear_solver.LinearSolver.num_neg_eigvals"] = num_neg_eigvals
+    kind, val = u.raised(lambda: u.method(ss, "solve", cur))
+    if kind == "raise" and not hasattr(val.exc.cls, "qualname"):
+        # the one deliberate configuration error of this solver: inertia correction requested from a factorisation
+        # that cannot provide the inertia (message-carrying, raised before any result exists)
+        msg = val.exc.args[0] if val.exc.args else ""
+        u.ensure(inertia and seen["none"] and val.exc.cls is Exception and isinstance(msg, str) and msg.startswith("Inertia correction requested"), "bare_Exception_only_for_inertia_correction_without_inertia", desc=f"escaping {val.exc!r} raised at {val.origin}")
+        return
+    if kind == "raise":
+        nm = val.exc.name()
+        u.ensure(nm in ("StepSolverError", "EvalError"), "raises_only{StepSolverError,EvalError}", desc=f"escaping {val.exc!r} raised at {val.origin}")
+        if nm == "StepSolverError":
+            u.ensure(val.exc.cause is not None and val.exc.cause.name() == "LinearSolverError", "StepSolverError_wraps_the_LinearSolverError")
+    else:
+        u.ensure(val.cls.name == "StepResult" and val.fields["orig_iterate"] is cur, "returns_StepResult_for_the_given_iterate")
+    u.cover("end")
 
 
 def _fresh_int_vec(it, name, k):
